@@ -216,7 +216,7 @@ theorem aroundPass_ok (o : Oracle) (clk : Clock) (stopAt : Option Nat) (cs : Nat
       ⟨by simp, by simp, by simp only; omega, fun j h1 h2 => by simp only at h1 h2; omega⟩
     obtain ⟨b1, b2, -, b4⟩ := pLoop_bound (aroundDef cs (Util.divUp it.best.len cs)) o clk stopAt
       (AroundInv (Util.divUp it.best.len cs)) (fun st => Util.divUp it.best.len cs - 1 - st.after)
-      (fun st r st' hI hn => aroundNext_inv cs _ st st' r hI hn)
+      (fun st _ r st' hI hn => aroundNext_inv cs _ st st' r hI hn)
       (fun st it' _ _ => by simp [aroundDef])
       (2 * Util.divUp it.best.len cs + 2) _ it false hinv (by simp only; omega)
     have hs := pLoop_shrinks (aroundDef cs (Util.divUp it.best.len cs)) o clk stopAt
@@ -349,7 +349,7 @@ theorem balPass_ok (o : Oracle) (clk : Clock) (stopAt : Option Nat) (cs : Nat) (
       · simp [countS_self]
     obtain ⟨b1, b2, -, b4⟩ := pLoop_bound (balDef cs (Util.divUp it.best.len cs) curly square normal) o clk stopAt
       (BalInv cs (Util.divUp it.best.len cs)) (fun st => Util.divUp it.best.len cs - 1 - st.lhs)
-      (fun st r st' hI hn => balNext_inv cs _ curly square normal st st' r hI hn)
+      (fun st _ r st' hI hn => balNext_inv cs _ curly square normal st st' r hI hn)
       (fun st it' hI _ => by
         simp only [balDef, balAct]
         rw [if_neg (by simp [hI.start])]
